@@ -300,6 +300,8 @@ def run(tier: str) -> int:
     table.judge(chk, tier, "C04")
     from harness import link
     link.judge(chk, tier, "C04")
+    from harness import lineends
+    lineends.judge(chk, tier, "C04")
     chk.exhaustive = tier == "thorough"
     chk.explanation = "Code.tla explored completely; thorough replays every block, quick a third plus every block with a fence look-alike"
     return chk.finish()
